@@ -485,7 +485,7 @@ pub fn cmd_run(env: &Arc<Env>, tier: &str, args: &[String]) -> i32 {
         "coverage": {
             "evaluations": a.evaluations,
             "distinct_nontrivial": a.states.len(),
-            "rule": "a case is one life cycle (20-110 calls over pools of 3 configs, 2 contexts, 6 suggestions, 8 held strings) executed only through the 33 exported C functions in an AddressSanitizer + LeakSanitizer child; the seeded scheduler orders context events, read-outs and frees (read-outs of suggestions after the context moved on or was freed, strings held across frees, configs freed before their contexts are used, NULL frees). An evaluation is one compared read-out (C getters vs Rust API on the same object, C wrapper vs the Rust method on a lock-step twin, later re-reads vs the first read, held strings at release) or one allocation-balance check. States are distinct non-empty observations (option bits + full read-out).",
+            "rule": "a case is one life cycle (20-110 calls over pools of 3 configs, 2 contexts, 6 suggestions, 8 held strings) executed only through the 33 exported C functions in an AddressSanitizer + LeakSanitizer child; the seeded scheduler orders context events, read-outs and frees (read-outs of suggestions after the context moved on or was freed, strings held across frees, configs freed before their contexts are used, NULL frees); about a third of the keys of a fixed-layout context come in bursts aimed at the composer's states, now and then one composition of 30-60 keys is typed in one go and read out completely, and in four of ten life cycles the disk every context starts from holds a user auto-correct list (in half of those with a byte that is not UTF-8 inside a value). An evaluation is one compared read-out (C getters vs Rust API on the same object, C wrapper vs the Rust method on a lock-step twin, later re-reads vs the first read, held strings at release) or one allocation-balance check. States are distinct non-empty observations (option bits + full read-out).",
             "samples": samples,
             "lifecycles": a.lifecycles,
             "lifecycles_requested": total,
